@@ -63,6 +63,11 @@ def oracle(c, r):
     od = r.get('overlapping_dump')
     if od is not None and not (od['written'] and od['equal']):
         bad.append({'a dump requested while another dump was being written does not hold the statistics of that moment': od})
+    for pfx, info in (r.get('explicit_prefixes') or {}).items():
+        # hot(n) and hot(n // 2): the `for` line is hit (n + 1) + (n // 2 + 1) times
+        want_hits = info['n'] + 1 + info['n'] // 2 + 1
+        if info['rc'] != 0 or info['files'] != [pfx + '.lprof', pfx + '.txt', pfx + '_<TS>.txt'] or info.get('hot_loop_hits') != want_hits:
+            bad.append({'explicit profiler with output prefix %r: its own three files with its own data' % pfx: info, 'expected_hits_of_the_loop_line': want_hits})
     if r['live'] != r['live_reloaded']:
         bad.append({'load(dump(stats)) != stats': [str(r['live'])[:300], str(r['live_reloaded'])[:300]]})
     if r['live_print_stats'] != r['reloaded_show_text']:
